@@ -4,6 +4,8 @@ import (
 	"bytes"
 	"fmt"
 
+	"github.com/alttpo/snes/emulator/cpualt"
+
 	"verif/sim"
 )
 
@@ -87,6 +89,9 @@ func (c12) Gen(r *sim.Rand, tier string, run uint64) *sim.Scenario {
 		}
 		sc.Ops = ops
 		sc.Cfg["wdm"] = int64(r.Intn(2))
+		if kind == 1 && r.Chance(1, 20) {
+			sc.Cfg["initfrom"] = int64(r.Range(1, 2))
+		}
 		if r.Chance(1, 6) {
 			placeAtBankEnd(r, sc, true)
 			sc.Cfg["wdm"] = 1
@@ -576,6 +581,16 @@ func c12bare(sc *sim.Scenario, env *sim.Env) *sim.Violation {
 	var mc *Machine
 	if sc.C("kind") == 1 {
 		mc = NewAltMachine(env, 0, mem, 0, 0)
+		if f := sc.C("initfrom"); f != 0 {
+			// the script runs on a copy made with InitFrom, onto a fresh or a used receiver
+			cp := &cpualt.CPU{}
+			if f == 2 {
+				cp.Init()
+			}
+			cp.InitFrom(mc.altB)
+			mc = &Machine{CPU: cpuB{cp}, Mem: mem, altB: cp}
+			st.Probe("cpu_made_with_InitFrom")
+		}
 	} else {
 		mc = NewBusMachine(env, 0, mem)
 	}
